@@ -245,3 +245,113 @@ Theorem C05_sgn_parse_refuted :
     parse_with (list token) next_tok true 50 ts = Ok e.
 Proof. exact sgn_parse_refuted. Qed.
 Print Assumptions C05_sgn_parse_refuted.
+
+(* ---- the evaluator's code itself: gen/FormulaOpsSrc.v is re-translated from genapi/src/formula.rs on every run by
+   tools/translate_formulaops.py (EvaluationResult coercions and From impls, wrapping_pow, Expr::eval_binop,
+   Expr::eval_unop, Expr::eval; primitives: model/FormulaOps.v - float arithmetic is the oracle record - and
+   lib/RustInt.v); proofs/P_C05s.v.  [res_ok r] : an integer value is an i64. ---- *)
+From Cam Require Import RustInt FormulaOps FormulaOpsSrc P_C05s.
+
+(* Every arm of eval_binop is the model's: (1) for EVERY operator other than && and ||, all operand values (every
+   i64, every float pattern) and every oracle record, the translated arm returns what binop_strict returns - same
+   value, same class (integer / float), same error; (2) with the operands given by their evaluations, as in the
+   source, the translated function is [model_binop] - which places the `?` of the right operand of && and || behind
+   the test of the left one - and (3) [model_binop] is literally the EBin clause of the model's eval; (4) the
+   translated loop of wrapping_pow is the model's power for every base and every u64 exponent; (5) the shift arms
+   take the count modulo 64 whatever the `as u32` did to it. *)
+Theorem C05_binop_from_source :
+  (forall fops k a b, res_ok a -> res_ok b -> k <> BAnd -> k <> BOr ->
+     src_eval_binop fops k (Ok a) (Ok b) = binop_strict fops true k a b) /\
+  (forall fops k ea eb, out_ok ea -> out_ok eb ->
+     src_eval_binop fops k ea eb = model_binop fops k ea eb) /\
+  (forall fops fuel env k l r,
+     eval fops true fuel env (EBin k l r) =
+     model_binop fops k (eval fops true fuel env l) (eval fops true fuel env r)) /\
+  (forall base exp, 0 <= exp < 2 ^ 64 -> src_wrapping_pow base exp = Ok (pow_wrap base exp)) /\
+  (forall a b, fst (i64_overflowing_shl a (r_cast 32 b)) = sw 64 (Z.shiftl a (b mod 64)) /\
+               fst (i64_overflowing_shr a (r_cast 32 b)) = Z.shiftr a (b mod 64)).
+Proof. exact binop_from_source_all. Qed.
+Print Assumptions C05_binop_from_source.
+
+(* Every arm of eval_unop (~ ABS SGN NEG and the fourteen float functions, with the class of the result). *)
+Theorem C05_unop_from_source :
+  (forall fops k a, res_ok a -> src_eval_unop fops k (Ok a) = unop_apply fops true k a) /\
+  (forall fops k ea, out_ok ea -> src_eval_unop fops k ea = model_unop fops k ea) /\
+  (forall fops fuel env k x,
+     eval fops true fuel env (EUn k x) = model_unop fops k (eval fops true fuel env x)).
+Proof. exact unop_from_source_all. Qed.
+Print Assumptions C05_unop_from_source.
+
+(* as_integer / as_float / as_bool / is_integer and the three From impls, for every value. *)
+Theorem C05_coercions_from_source : forall fops r,
+  src_as_integer fops r = as_integer fops r /\ src_as_float fops r = as_float fops r /\
+  src_as_bool r = as_bool r /\ src_is_integer r = is_integer r /\
+  (forall b, src_res_from_bool b = of_bool b) /\ (forall i, src_res_from_i64 i = RInt i) /\
+  (forall f, src_res_from_f64 f = RFloat f).
+Proof. exact coercions_from_source. Qed.
+Print Assumptions C05_coercions_from_source.
+
+(* Expr::eval as a whole (dispatch, ternary, literals, identifier lookup): the translated function IS the model's
+   eval on every expression and environment whose integer literals are i64s, for every fuel. *)
+Theorem C05_eval_from_source : forall fops fuel env,
+  env_lits_ok env -> forall e, lits_ok e -> src_eval fops fuel env e = eval fops true fuel env e.
+Proof. exact eval_from_source. Qed.
+Print Assumptions C05_eval_from_source.
+
+(* The property's clauses on the translated code alone: no operator arm panics for any operands; + - * on integers
+   are arithmetic modulo 2^64; << and >> use the count modulo 64 (>> is the floor division: arithmetic shift); an
+   integer % fails exactly for the divisor 0 and is the truncated remainder otherwise; the loop of wrapping_pow ends
+   with its exponent at 0 within the bits of the exponent (its fuel is never used up). *)
+Theorem C05_operators_of_source :
+  (forall fops k a b, res_ok a -> res_ok b -> src_eval_binop fops k (Ok a) (Ok b) <> Panic) /\
+  (forall fops k a, res_ok a -> src_eval_unop fops k (Ok a) <> Panic) /\
+  (forall fops a b,
+     src_eval_binop fops BAdd (Ok (RInt a)) (Ok (RInt b)) = Ok (RInt (sw 64 (a + b))) /\
+     src_eval_binop fops BSub (Ok (RInt a)) (Ok (RInt b)) = Ok (RInt (sw 64 (a - b))) /\
+     src_eval_binop fops BMul (Ok (RInt a)) (Ok (RInt b)) = Ok (RInt (sw 64 (a * b)))) /\
+  (forall fops a b, in_i64 a -> in_i64 b ->
+     src_eval_binop fops BShl (Ok (RInt a)) (Ok (RInt b)) = Ok (RInt (sw 64 (a * 2 ^ (b mod 64)))) /\
+     src_eval_binop fops BShr (Ok (RInt a)) (Ok (RInt b)) = Ok (RInt (a / 2 ^ (b mod 64)))) /\
+  (forall fops a b, in_i64 a -> in_i64 b ->
+     src_eval_binop fops BRem (Ok (RInt a)) (Ok (RInt b)) =
+     if b =? 0 then Err E_INVALID_DATA else Ok (RInt (sw 64 (Z.rem a b)))) /\
+  (forall n base exp acc, 0 <= exp < 2 ^ Z.of_nat n ->
+     exists b' r, src_wrapping_pow_loop n base exp acc = Ok (b', 0, r)).
+Proof. exact operators_of_source. Qed.
+Print Assumptions C05_operators_of_source.
+
+(* The translator's reading of the operator enums (constructor per variant, declaration order) agrees with the
+   model's numbering and with tools/translate_funcs.py's independent reading of the same declarations. *)
+Theorem C05_enums_cross_check :
+  src_binop_decl = all_binops /\ src_unop_decl = all_unops /\
+  map binop_code src_binop_decl = map Z.of_nat (seq 0 19) /\ map unop_code src_unop_decl = map Z.of_nat (seq 0 18) /\
+  zlen src_binop_decl = gen_binop_count /\ zlen src_unop_decl = gen_unop_count /\
+  src_binop_names = gen_binop_variants /\ src_unop_names = gen_unop_variants.
+Proof. exact decl_cross_check. Qed.
+Print Assumptions C05_enums_cross_check.
+
+(* non-vacuity: the translated code evaluated (vm_compute) on concrete operands, with an oracle record of constants *)
+Theorem C05_source_examples :
+  src_eval_binop fops0 BAdd (Ok (RInt (2 ^ 63 - 1))) (Ok (RInt 1)) = Ok (RInt (- 2 ^ 63)) /\
+  src_eval_binop fops0 BMul (Ok (RInt (2 ^ 62))) (Ok (RInt 4)) = Ok (RInt 0) /\
+  src_eval_binop fops0 BShl (Ok (RInt 1)) (Ok (RInt 65)) = Ok (RInt 2) /\
+  src_eval_binop fops0 BShr (Ok (RInt (-8))) (Ok (RInt (-63))) = Ok (RInt (-4)) /\
+  src_eval_binop fops0 BRem (Ok (RInt 5)) (Ok (RInt 0)) = Err E_INVALID_DATA /\
+  src_eval_binop fops0 BRem (Ok (RInt (-7))) (Ok (RInt 2)) = Ok (RInt (-1)) /\
+  src_eval_binop fops0 BRem (Ok (RInt (- 2 ^ 63))) (Ok (RInt (-1))) = Ok (RInt 0) /\
+  src_eval_binop fops0 BPow (Ok (RInt 2)) (Ok (RInt 4294967296)) = Ok (RInt 0) /\
+  src_eval_binop fops0 BPow (Ok (RInt 3)) (Ok (RInt 4)) = Ok (RInt 81) /\
+  src_eval_binop fops0 BDiv (Ok (RInt 6)) (Ok (RInt 3)) = Ok (RFloat 7) /\
+  src_eval_binop fops0 BLe (Ok (RInt 3)) (Ok (RInt 3)) = Ok (RInt 1) /\
+  src_eval_binop fops0 BXor (Ok (RInt (-1))) (Ok (RInt 5)) = Ok (RInt (-6)) /\
+  src_eval_binop fops0 BAnd (Ok (RInt 0)) Panic = Ok (RInt 0) /\
+  src_eval_binop fops0 BOr (Ok (RInt 2)) (Err 5) = Ok (RInt 1) /\
+  src_eval_binop fops0 BAnd (Ok (RInt 1)) (Err 5) = Err 5 /\
+  src_eval_unop fops0 UNeg (Ok (RInt (- 2 ^ 63))) = Ok (RInt (- 2 ^ 63)) /\
+  src_eval_unop fops0 UNot (Ok (RInt 0)) = Ok (RInt (-1)) /\
+  src_eval_unop fops0 USgn (Ok (RInt (-9))) = Ok (RInt (-1)) /\
+  src_eval fops0 1 [([65], EInt 5)] (EIf (EBin BLt (EIdent [65]) (EInt 7)) (EBin BShl (EIdent [65]) (EInt 2)) (EIdent [66]))
+    = Ok (RInt 20) /\
+  src_eval fops0 0 [] (EIdent [66]) = Err E_INVALID_NODE.
+Proof. exact source_examples. Qed.
+Print Assumptions C05_source_examples.
